@@ -257,6 +257,57 @@ def run(ctx):
                 res.find(key, pi.loc(), "Instruction::%s is printed with command keyword(s) %s, but parse_instruction dispatches %s to parsers that build %s" % (vn, sorted(set(words) & set(cmd_of_word)), sorted(set(cmds)), {c: sorted(arms.get(c, set())) for c in set(cmds)}), "print an Instruction::%s and re-parse it" % vn)
     res.count("dispatch_variants_checked", ndisp, floor=35)
 
+    # ---- R3b optional fields: a present value is written whatever it contains.  (a) no Some-discarding Option adaptor is
+    #      applied in a writer; (b) every emission of an Option field's payload is control dependent only on that Option
+    #      being Some (plus `?` propagation and loops)
+    from qv.engine import walk_expr as _wx
+    DISCARD = {"filter", "take_if", "and_then", "xor", "is_some_and", "is_none_or", "zip", "take"}
+    nopt = 0
+    for w in sorted(writers, key=lambda f: f.path):
+        sp = w.impl_self_path()
+        adt = db.adts.get(sp)
+        for g in [w] + db.closures_of(w):
+            for bb, t, c in g.calls():
+                if c and "option::Option" in callee_path(c) and c.get("name") in DISCARD:
+                    key = "K3|optional-field-dropped|%s|%s" % (sp, c.get("name"))
+                    res.site(key, True, {"verdict": "VIOLATION"})
+                    res.find(key, g.loc(t.get("sp")), "the writer of %s passes an optional value through Option::%s, which can discard a value that is present: what is printed no longer determines the field" % (sp.replace("quil_rs::", ""), c.get("name")), "`PRAGMA X \"\"` prints as `PRAGMA X`, which re-parses with no data")
+        if not adt or adt["kind"] != "Struct":
+            continue
+        optf = [f_["n"] for f_ in adt["variants"][0]["fields"] if db.ty_s(f_["t"]).startswith("std::option::Option<")]
+        for fld in optf:
+            # emissions whose arguments mention the payload of self.<fld>
+            for bb, t, c in w.calls():
+                if not c or c.get("name") not in ("write_fmt", "write", "write_str", "write_join_quil"):
+                    continue
+                hit = False
+                for a_ in t["args"]:
+                    e_ = fn_expr_operand(w, a_)
+                    ns = []
+                    _wx(e_, ns.append)
+                    if any(n[0] == "as" and n[2] == "Some" and n[1][0] == "field" and n[1][2] == fld for n in ns):
+                        hit = True
+                if not hit:
+                    continue
+                nopt += 1
+                extra = []
+                for sb, tgt in w.control_deps(bb, transitive=False):
+                    tt = w.blocks[sb]["t"]
+                    if tt["k"] != "switch":
+                        continue
+                    de = fn_expr_operand(w, tt["d"])
+                    if de[0] == "discr":
+                        inner = de[1]
+                        if inner[0] == "field" and inner[2] == fld:
+                            continue
+                        if inner[0] == "call" and (inner[1].endswith("Try>::branch") or inner[1].endswith("::next")):
+                            continue
+                    extra.append(str(de[:2])[:70])
+                key = "K3|optional-field-conditions|%s|%s" % (sp, fld)
+                res.site(key, True, {"extra_conditions": extra, "verdict": "ok" if not extra else "VIOLATION"})
+                if extra:
+                    res.find(key, w.loc(t.get("sp")), "the writer of %s prints `%s` only under an additional condition on its content (%s)" % (sp.replace("quil_rs::", ""), fld, extra), "a present but `empty` value is dropped from the text, and the re-parsed program differs")
+    res.count("optional_field_emissions", nopt, floor=3)
     # ---- R4 real literal
     real_literal_rule(db, res, writers)
     # K8 separator agreement (forward direction): a writer that emits a comma between elements needs a parser for the same
